@@ -164,3 +164,24 @@ V("OW3-helper-inplace", "C13", "OW3",
   ("scaling.py", "            r_t = data / self.excitation_value\n", "            r_t = data\n"))
 V("OW3-benign-np-array-copy", "C13", None,
   ("scaling.py", "        voltage_out = data.astype(np.double)\n", "        voltage_out = np.array(data, dtype=np.double)\n"))
+
+# ---------------------------------------------------------------- C14 (DT1-DT4, LN1)
+V("DT1-revert-linear-ensure-double", "C14", "DT1",
+  ("scaling.py", "        data = data.astype(np.dtype('float64'), copy=False)\n        return data * self.slope + self.intercept\n", "        return data * self.slope + self.intercept\n"))
+V("DT1-revert-rtd-ensure-double", "C14", "DT1",
+  ("scaling.py", "        # Ensure data is double precision\n        data = data.astype(np.dtype('float64'), copy=False)\n        r_t = data / self.current_excitation\n", "        r_t = data / self.current_excitation\n"))
+V("DT1-table-declared-int64", "C14", "DT1",
+  ("scaling.py", "        elif isinstance(scaling, NoOpScaling):", "        elif isinstance(scaling, TableScaling):\n            return np.dtype('int64')\n        elif isinstance(scaling, NoOpScaling):"))
+V("DT1-noop-declares-raw", "C14", "DT1",
+  ("scaling.py", "            return self._compute_scale_dtype(scaling.input_source, raw_data_type, scaler_data_types)\n        else:", "            return raw_data_type.nptype\n        else:"))
+V("DT1-benign-cast-first", "C14", None,
+  ("scaling.py", "        data = data.astype(np.dtype('float64'), copy=False)\n        return data * self.slope + self.intercept\n", "        values = np.asarray(data, dtype=np.float64)\n        return values * self.slope + self.intercept\n"))
+V("DT2-slice-empty-raw-dtype", "C14", "DT2",
+  ("tdms.py", "        if stop == start:\n            return np.empty((0, ), dtype=self.dtype)\n", "        if stop == start:\n            return np.empty((0, ), dtype=self._raw_data_dtype())\n"))
+V("DT2-chunk-empty-raw-dtype", "C14", "DT2",
+  ("tdms.py", "            return np.empty((0, ), dtype=self._channel.dtype)\n", "            return np.empty((0, ), dtype=self._channel._raw_data_dtype())\n"))
+V("DT4-revert-native-order", "C14", "DT4",
+  ("tdms_segment.py", "            data = fromfile(file, dtype=dtype, count=number_values)\n            # Convert to native byte order, this doesn't copy if data is already in native order\n            return data.astype(self.data_type.nptype, copy=False)\n", "            return fromfile(file, dtype=dtype, count=number_values)\n"))
+V("LN1-own-multiplication", "C14", "LN1",
+  ("reader.py", "            object_metadata.num_values += _number_of_segment_values(segment_object, segment)\n",
+   "            if segment_object.has_data:\n                object_metadata.num_values += segment_object.number_values * segment.num_chunks\n"))
